@@ -1,6 +1,6 @@
 """C07 - the power operator follows the documented cpow rules.
 
-spec/Pow.tla: (table) the five rows of docs/src/userguide/cpow_table.csv as RowMatches/RowCell,
+spec/Pow.tla (one TLC run, cfg Pow_q / Pow_t): (table) the five rows of docs/src/userguide/cpow_table.csv as RowMatches/RowCell,
 one state per (cpow, operand a, operand b) with the demanded result class; (intpow) IntPow of
 Utility/CMath.c as a step machine on scaled integer types against b^e-when-it-fits, with the
 loop invariant and UB bookkeeping; (pow2) the width classes of __Pyx__PyNumber_PowerOf2;
@@ -393,36 +393,16 @@ def run(tier, seed):
             val_mod.update({(cpow, L.case_id(c)): name for c in chunk})
     fut_build = ex.submit(core.build_many, specs, workdir, len(specs))
 
-    # ---- model checking: the step machine and the one-state-per-case parts run side by side
-    # core.tlc names its metadir by (millisecond, number of entries of the tlc dir): two concurrent calls must not
-    # compute the same name (the first to finish would remove the other's files), so the second call starts a second
-    # later and after the directory has gained an entry.
-    import threading
-    started = threading.Event()
-
-    def run_int():
-        started.set()
-        return core.tlc("Pow", cfg="Pow_int_q" if tier == "quick" else "Pow_int_t", timeout=2400, workers=8 if tier == "quick" else None)
-    fut_int = ex.submit(run_int)
-    started.wait()
-    time.sleep(1.0)
-    os.makedirs(os.path.join(core.subdir("tlc"), "placeholder_c07"), exist_ok=True)
-    small = core.tlc_or_die("Pow", cfg="Pow_small", timeout=900, workers=2)
-    cov["tlc"].append(dict(small.summary(), config="small"))
+    # ---- model checking (one TLC run: the one-state-per-case parts and the IntPow step machine), builds overlap
+    small = tl_int = core.tlc_or_die("Pow", cfg="Pow_q" if tier == "quick" else "Pow_t", timeout=2400, workers=8 if tier == "quick" else None)
+    cov["tlc"].append(dict(small.summary(), config="all parts"))
     table = [r for r in small.printed if r["part"] == "table"]
     if len(table) < 1500:
         core.die("Pow.tla published %d table cases" % len(table))
 
     if {(c["cpow"], L.case_id(c)) for c in table} != set(type_mod) or len(table) != len(type_mod):
         core.die("the table states published by Pow.tla are not the operand forms the modules were rendered from")
-    timing = {"tlc_small_done_s": round(time.time() - t0, 1)}
-    tl_int = fut_int.result()
-    timing["tlc_intpow_done_s"] = round(time.time() - t0, 1)
-    if not tl_int.ok:
-        import sys
-        sys.stderr.write(tl_int.out[-4000:])
-        core.die("TLC failed on the IntPow machine (%s)" % (tl_int.violation or tl_int.rc))
-    cov["tlc"].append(dict(tl_int.summary(), config="intpow"))
+    timing = {"tlc_done_s": round(time.time() - t0, 1)}
     ints = [r for r in tl_int.printed if r["part"] == "intpow"]
     m = Model(small.printed, ints)
 
@@ -565,8 +545,8 @@ def run(tier, seed):
         samples += [{"cpow": meta[mod][i][0]["cpow"], "call": all_calls[mod][i], "want": repr(meta[mod][i][1]), "got": obs[mod][i],
                      "decided_by": meta[mod][i][0]["decided_by"]} for i in idx]
     cov.update({
-        "states": small.generated + tl_int.generated, "distinct_states": small.distinct + tl_int.distinct,
-        "transitions": small.generated + tl_int.generated,
+        "states": small.generated, "distinct_states": small.distinct,
+        "transitions": small.generated,
         "traces_validated_against_impl": n_calls + n_types,
         "evaluations": n_calls + n_types, "distinct_nontrivial": len(nontriv) + n_types,
         "spec_vs_python_cases": n_validated, "typeof_facts": n_types, "value_functions": n_funcs, "value_calls": n_calls,
